@@ -343,8 +343,17 @@ Section Loader.
         end
     end.
 
-  Definition quota_defined (qs : list (file qdoc)) : bool :=
-    existsb (fun f => match f with Rendered q => qd_quotas q && qd_valid q | Bytes _ => false end) qs.
+  (* "some quota is defined" = some quota file DECODES to a usable quota document
+     (audit 2, C05-2: a function of the decoded documents, as in the code - the
+     quota loader registers what UnmarshalPolicyRawData returned, whether the
+     file was rendered by the harness or written as bytes) *)
+  Definition usable_quota (f : file qdoc) : bool :=
+    match unmarshal qdoc empty_qdoc parse_q alloc_nil f with
+    | DObj q => qd_quotas q && qd_valid q
+    | _ => false
+    end.
+
+  Definition quota_defined (qs : list (file qdoc)) : bool := existsb usable_quota qs.
 
   Definition load_dir (d : dirs) : outcome :=
     match quota_stage (d_quotas d) with
@@ -422,7 +431,7 @@ Section Startup.
             | FSFlows l =>
                 match procdef_stage parse_d alloc_nil (d_procdefs d) with
                 | Some o => o
-                | None => of_verdict (load (CF l (quota_defined (d_quotas d))))
+                | None => of_verdict (load (CF l (quota_defined parse_q alloc_nil (d_quotas d))))
                 end
             end
         end
@@ -452,25 +461,47 @@ Definition unclaimed {A : Type} (f : file A) : bool :=
    reads them; [claimed] = the harness expects every Bytes file to be decided by
    the scanner; observed code: 0 accepted, 1 / 2 / 3 / 4 / 5 rejected at that
    stage, 8 panic, 9 no answer.  A file the scanner does not decide makes the
-   case void (None) - or a mismatch (98) when the harness claimed otherwise. *)
+   case void (None) - or a mismatch (98) when the harness claimed otherwise.
+
+   [qdec] (extension 4): the decoder's answer on BYTE quota files with content -
+   a table bytes -> quota document supplied by the harness for the files it
+   wrote as raw bytes from a valid quota document (with comments, blank lines,
+   markers around): the same trust as [Rendered], but the bytes go through
+   [scan] (which must leave them to the decoder: SOther), [unmarshal],
+   [quota_stage] and [quota_defined].  Such a file does not void the case;
+   every other file the scanner does not decide still does. *)
 Inductive case_files :=
   FilesCase (qs : list (file qdoc)) (ps : list (file pdoc)) (fs : list (file flowcfg))
-            (ds : list (file ddoc)) (claimed : bool) (code : Z).
+            (ds : list (file ddoc)) (claimed : bool) (code : Z)
+            (qdec : list (list Z * qdoc)).
 
-Definition run_files_with (loader : dirs -> outcome) (k : case_files) : option Z :=
-  let '(FilesCase qs ps fs ds claimed code) := k in
-  if existsb unclaimed qs || existsb unclaimed ps || existsb unclaimed fs || existsb unclaimed ds
+Fixpoint qlookup (t : list (list Z * qdoc)) (b : list Z) : doc qdoc :=
+  match t with
+  | [] => DocErr
+  | (k, q) :: r => if eqb_list k b then Doc q else qlookup r b
+  end.
+
+Definition qunclaimed (t : list (list Z * qdoc)) (f : file qdoc) : bool :=
+  unclaimed f
+  && match f with
+     | Bytes b => match qlookup t b with Doc _ => false | _ => true end
+     | Rendered _ => false
+     end.
+
+Definition run_files_with (loader : (list Z -> doc qdoc) -> dirs -> outcome) (k : case_files) : option Z :=
+  let '(FilesCase qs ps fs ds claimed code qdec) := k in
+  if existsb (qunclaimed qdec) qs || existsb unclaimed ps || existsb unclaimed fs || existsb unclaimed ds
   then (if claimed then Some 98 else None)
   else
-    let m := outcome_code (loader (DIR qs ps fs ds)) in
+    let m := outcome_code (loader (qlookup qdec) (DIR qs ps fs ds)) in
     if m =? code then None else Some m.
 
 Definition run_files : case_files -> option Z :=
-  run_files_with (load_files (fun _ => DocErr) (fun _ => DocErr) (fun _ => DocErr) (fun _ => DocErr)).
+  run_files_with (fun pq => load_files pq (fun _ => DocErr) (fun _ => DocErr) (fun _ => DocErr)).
 
 (* the same against the seeded decoder (C05-8): used once, on a tree with that
    change, to check that the scanner tells "no document" (nil pointer, panic)
    from "empty mapping" (an object) - on the tree itself the two are
    indistinguishable (harness: C05_FILES_VARIANT=nil) *)
 Definition run_files_nil : case_files -> option Z :=
-  run_files_with (load_files_nil (fun _ => DocErr) (fun _ => DocErr) (fun _ => DocErr) (fun _ => DocErr)).
+  run_files_with (fun pq => load_files_nil pq (fun _ => DocErr) (fun _ => DocErr) (fun _ => DocErr)).
